@@ -58,7 +58,7 @@ impl Property for C06 {
     fn cases(tier: Tier) -> u32 {
         match tier {
             Tier::Quick => 1500,
-            Tier::Thorough => 40_000,
+            Tier::Thorough => 15_000,
         }
     }
 
@@ -72,7 +72,7 @@ impl Property for C06 {
     fn strategy(tier: Tier) -> BoxedStrategy<Case> {
         let maxlen = match tier {
             Tier::Quick => 110u16,
-            Tier::Thorough => 500u16,
+            Tier::Thorough => 300u16,
         };
         let attack = (0u8..12, 0u8..14, any::<u16>(), any::<u64>(), prop_oneof![6 => Just(0u8), 2 => Just(1u8), 1 => Just(2u8)]).prop_map(|(lead, kind, pos, val, from)| Attack { lead, kind, pos, val, from });
         (chain_params(maxlen), net_params(), prop::collection::vec(reg_spec(), 1..3), any::<bool>(), prop::collection::vec(attack, 1..5))
